@@ -318,8 +318,8 @@ def run(repo: Repo, chk: Check, thorough: bool = False) -> None:
         for k_, (lp_, oks, whys) in enumerate(scan_loops(repo, f)):
             n_scan += 1
             chk.ob('R01.4', f'{f.qn} :: scanning loop #{k_ + 1} moves its position on every way round', oks, whys, repo.loc(f.mod, lp_))
-    if n_scan < 2:
-        raise AnalysisError(f'R01.4: {n_scan} scanning loops found (epytext._colorize and doctest.subfunc confirmed)')
+    if n_scan < 1:
+        raise AnalysisError(f'R01.4: {n_scan} scanning loops found (epytext._colorize confirmed; doctest.subfunc has one too unless it splits the text instead)')
     chk.stats['scan_loops'] = n_scan
     chk.stats['pushback_sites'] = n_pb
     chk.stats['while_loops'] = n_loops
